@@ -22,7 +22,7 @@ TOGGLES = [
     "alias_scalars", "component_parameters", "component_bodies", "component_responses", "path_item_parameters",
     "same_name_two_locations", "multi_body", "multipart", "form", "octet", "text_responses", "plus_json",
     "no_content", "security", "tags", "defaults", "descriptions", "query_arrays", "header_params",
-    "cookie_params", "shared_paths", "inline_response_objects", "shuffle_decl", "media_type_params", "item_level_name_clash", "multi_media_responses", "wrapped_refs", "rich_form_fields", "reserved_param_names", "python_name_clash", "noise_responses", "trailing_slash_paths", "prefix_names", "inline_in_aliases", "inline_allof", "shared_body_models", "decorations", "shared_components", "no_operation_id", "long_paths", "coinciding_enums", "http_header_names",
+    "cookie_params", "shared_paths", "inline_response_objects", "shuffle_decl", "media_type_params", "item_level_name_clash", "multi_media_responses", "wrapped_refs", "rich_form_fields", "reserved_param_names", "python_name_clash", "noise_responses", "trailing_slash_paths", "prefix_names", "inline_in_aliases", "inline_allof", "shared_body_models", "decorations", "shared_components", "no_operation_id", "long_paths", "coinciding_enums", "http_header_names", "titles",
 ]
 
 PROP_VOCAB = [
@@ -248,6 +248,10 @@ class DocGen:
             else:
                 props[nm] = self.prop_schema(depth + 1)
         s: dict = {"type": "object", "properties": props}
+        if depth > 0 and self.on("titles") and r.random() < 0.35:
+            # an inline object's title names its class (after the parent's name, or alone when the configuration switches
+            # use_path_prefixes_for_title_model_names off); mostly unique, now and then one of two stock titles
+            s["title"] = r.choice(["Address", "Item Detail"]) if r.random() < 0.3 else "T" + self.token()
         req = [nm for nm in names if r.random() < 0.5]
         if req:
             s["required"] = req
@@ -1055,6 +1059,45 @@ def random_config(r: random.Random, doc: dict, rich: bool = True) -> dict:
     if r.random() < 0.1:
         cfg["http_timeout"] = r.choice([1, 30])
     return cfg
+
+
+def unique_titles(doc: dict) -> None:
+    """Make the titles of inline schemas unique within the document (in place).  Same-titled inline objects are a naming
+    conflict the generator reports ('duplicate models', the later one and its users are omitted): material for C12's
+    order clause, noise for checks that judge the behaviour of what was generated."""
+    seen: dict[str, int] = {}
+
+    def walk(x: Any) -> None:
+        if isinstance(x, dict):
+            t = x.get("title")
+            if isinstance(t, str) and ("properties" in x or "type" in x):
+                seen[t] = seen.get(t, 0) + 1
+                if seen[t] > 1:
+                    x["title"] = f"{t} {seen[t]}"
+            for v in x.values():
+                walk(v)
+        elif isinstance(x, list):
+            for v in x:
+                walk(v)
+
+    def strip(x: Any) -> None:
+        if isinstance(x, dict):
+            if isinstance(x.get("title"), str) and ("properties" in x or "type" in x):
+                del x["title"]
+            for v in x.values():
+                strip(v)
+        elif isinstance(x, list):
+            for v in x:
+                strip(v)
+
+    # outside components.schemas one schema object can be reached twice from ONE operation (a component response used
+    # for two statuses, the same content under two media types): the titled class would be generated twice
+    strip(doc.get("paths"))
+    for section, content in (doc.get("components") or {}).items():
+        if section == "schemas":
+            walk(content)
+        else:
+            strip(content)
 
 
 def generate(seed_rng: random.Random, **kw: Any) -> tuple[dict, dict]:
